@@ -11,8 +11,6 @@ from . import common, ctxlib, luaquota
 from .luaquota import HUGE
 
 
-KEY_STALE = "kill-intercepted-after-cross-frame-release:memory"
-
 # (name, known-finding key of the defect the probe exhibits on the current code or None, program, limit, expected status)
 PROBES = [
     ("probe:coroutine-across-callcontext", None,
@@ -31,9 +29,9 @@ PROBES = [
      "local function body() local ok, msg = P(string.rep, 'x', 1000000) emit('after', ok) "
      "local t = {} for i = 1, 100 do t[i] = i end emit('continued') return 'R' end\n", 100000, "killed"),
     # a coroutine created in the limited context and finished inside pcall releases its stack charge into the
-    # enclosing context (8007e69); the pcall context keeps its now too small inherited limit, a request it
-    # refuses is not propagated (0426709 tests equality) and Lua code sees the error
-    ("probe:stale-limit", KEY_STALE,
+    # enclosing context (8007e69); the request the pcall context then refuses must still reach the limited
+    # context (52f8e49: inherited flag set at push) — the former finding C06-STALE-INHERITED-LIMIT
+    ("probe:stale-limit", None,
      "local function body() local co = coroutine.wrap(function() return 1 end) "
      "local ok, msg = P(function() co() local s = string.rep('x', 1500) return #s end) emit('after', ok) "
      "local t = string.rep('y', 1800) emit('continued', #t) return 'R' end\n", 3800, "killed"),
@@ -142,6 +140,12 @@ def lua_leg(ctx, binpath, nprog):
         g = luaquota.Gen(rng, "memory")
         body = g.body()
         progs.append(("g%d" % k, "+".join(g.tags), "local function body()\n  " + body + "\n  return 'R'\nend\n"))
+    # hand-picked programs swept like the generated ones (monotonicity in M, prefix traces): the witness of the
+    # former finding C06-STALE-INHERITED-LIMIT (release into the enclosing context, then a refused request)
+    progs.append(("corpus0", "corpus:stale-limit",
+                  "local function body()\n  local co = coroutine.wrap(function() return 1 end)\n"
+                  "  local ok, n = P(function() co() local s = string.rep('x', 1500) return #s end) emit('after', ok, n)\n"
+                  "  local t = string.rep('y', 2300) emit('continued', #t)\n  return 'R'\nend\n"))
     # probes first, each in its own process (they may kill it)
     for name, key, src, lim, want in PROBES:
         res = luaquota.run_batch(binpath, [(name, wrap(src, lim)), (name + ":after", "emit('alive')")])
@@ -310,6 +314,10 @@ def run(ctx):
     else:       # a third of the depth-3 enumeration (C07 runs all of it), chosen by the seed
         ctxlib.flat_leg(ctx, h, ["exh", "3", str(ctx.seed % 3), "3"], "exh3/3")
         ctxlib.flat_leg(ctx, h, ["rand", "3000"], "rand")      # cross-context releases need depth >= 4
+    # bracketed CallContext trees against Model.CallCtx: the propagation of terminations (inherited flags) is
+    # not observable through the public API, only through behaviour
+    from . import ctxcall
+    ctxcall.call_leg(ctx, h, 20000 if ctx.tier == "thorough" else 4000)
     ctx.log("Lua-level sweep")
     runner = common.build_go("c05", "cmd/c05")
     lua_leg(ctx, runner, 300 if ctx.tier == "thorough" else 40)
